@@ -85,9 +85,13 @@ def _mk():
         lambda x0, c: [((-1) ** n) * poch(c['a'], n) * sp.hyperu(c['a'] + n, c['b'] + n, x0) for n in range(c['D'])],
         dom='gam', prm=lambda rng: {'a': rng.choice([0.5, 1.0, 1.5, 2.0, 0.3, 3.7, -0.5, -1.5, -1.3, -2.5, -1.0, -2.0]), 'b': rng.choice([0.5, 1.5, 2.5, -0.5])}, f=None)
     # kink functions, away from the kink
-    add('absolute', lambda x, c: algopy.absolute(x), 'absolute', lambda x0, c: [np.sign(x0), np.absolute(x0)], dom='nz')
-    add('abs', lambda x, c: abs(x), 'absolute', lambda x0, c: [np.sign(x0), np.absolute(x0)], dom='nz')
-    add('sign', lambda x, c: algopy.sign(x), 'sign', lambda x0, c: [np.sign(x0)], dom='nz')
+    # (every entry point: the dispatcher, the builtin, the methods; base points of ordinary size and tiny non-zero ones,
+    # which are away from the kink as well)
+    add('absolute', lambda x, c: algopy.absolute(x), 'absolute', lambda x0, c: [np.sign(x0), np.absolute(x0)], dom='kink')
+    add('abs', lambda x, c: abs(x), 'absolute', lambda x0, c: [np.sign(x0), np.absolute(x0)], dom='kink')
+    add('abs_method', lambda x, c: x.abs(), 'absolute', lambda x0, c: [np.sign(x0), np.absolute(x0)], dom='kink')
+    add('fabs_method', lambda x, c: x.fabs(), 'absolute', lambda x0, c: [np.sign(x0), np.absolute(x0)], dom='kink')
+    add('sign', lambda x, c: algopy.sign(x), 'sign', lambda x0, c: [np.sign(x0)], dom='kink')
     add('clip', lambda x, c: UTPM.botched_clip(c['lo'], c['hi'], x), 'clip',
         lambda x0, c: [np.clip(x0, c['lo'], c['hi']),
                        np.logical_and(x0 <= c['hi'], x0 >= c['lo']).astype(float)], dom='clip',
@@ -108,6 +112,10 @@ def gen_x0(rng, dom, shape, cplx):
             v = dyadic(rng, 0.5, 3.0)
         elif dom == 'nz':
             v = rng.choice([-1, 1]) * dyadic(rng, 0.5, 2.0)
+        elif dom == 'kink':
+            v = rng.choice([-1, 1]) * dyadic(rng, 0.5, 2.0)
+            if rng.random() < 0.25:
+                v = rng.choice([-1, 1]) * rng.choice([2.0 ** -20, 2.0 ** -30, 1e-9, 2.0 ** -40, 1e-14, 2.0 ** -200])
         elif dom == 'tan':
             v = dyadic(rng, -1.1, 1.1)
         elif dom == 'unit':
@@ -335,6 +343,34 @@ def run(ctx):
             res = run_case(ctx, case) or oracle_fails(case)
             if res:
                 ctx.report(case, 'failure', res)
+    # kink functions at tiny non-zero base points whose first-order coefficient has the opposite sign (away from the kink:
+    # the sign is that of the base point alone)
+    for name in [n for n in sorted(TABLE) if TABLE[n]['dom'] == 'kink']:
+        for tiny in (1e-9, -2.0 ** -30, 1e-14):
+            case = gen_case(ctx.rng, ctx.tier, name, False)
+            while case['D'] < 2:
+                case = gen_case(ctx.rng, ctx.tier, name, False)
+            x = np.array(case['x'])
+            x[0].reshape(x.shape[1], -1)[:, 0] = tiny
+            x[1].reshape(x.shape[1], -1)[:, 0] = -np.sign(tiny) * 0.75
+            case['x'] = x
+            ctx.evaluations += 1
+            ctx.count('tiny-base-point')
+            res = run_case(ctx, case) or oracle_fails(case)
+            if res:
+                ctx.report(case, 'failure', res)
+    # the tails of the sigmoid functions: the first-order coefficient f'(x0) x1 is tiny there but not zero; it must be accurate
+    # relative to its own size (log(expit(x)) has derivative ~1 at x = -40: a zero coefficient gives 0)
+    # (tanh is not probed: the library's own test_sign_tanh relies on tanh(200 x) having an exactly vanishing derivative)
+    for name, pts, dfun in (('expit', [-20.0, -30.0, -40.0, 25.0], lambda v: sp.expit(v) * sp.expit(-v)),):
+        for x0v in pts:
+            x = np.array([[x0v], [1.0], [0.0]])
+            case = {'fn': name, 'D': 3, 'P': 1, 'shape': [], 'cplx': False, 'x': x, 'tail': True}
+            ctx.evaluations += 1
+            ctx.count('tail-relative-accuracy')
+            res = tail_fails(case)
+            if res:
+                ctx.report(case, 'failure', res)
     # the first-order coefficient vanishes identically while higher ones do not: x(t) = x0 + x2 t^2 + ...
     for name in sorted(TABLE):
         case = gen_case(ctx.rng, ctx.tier, name, False)
@@ -381,6 +417,22 @@ def run(ctx):
                 ctx.report(case, 'failure', res)
 
 
+TAIL_DERIV = {'expit': lambda v: sp.expit(v) * sp.expit(-v), 'tanh': lambda v: 1.0 / np.cosh(v) ** 2}
+
+
+def tail_fails(case):
+    x = np.array(case['x'], dtype=float)
+    st, y = run_impl(case)
+    if st != 'ok':
+        return 'tail-exception-%s: %s' % (case['fn'], y)
+    want = float(TAIL_DERIV[case['fn']](x[0, 0])) * x[1, 0]
+    got = float(y[1, 0])
+    if not np.isfinite(got) or abs(got - want) > 1e-9 * abs(want):
+        return 'tail-%s: at x0 = %r the first-order coefficient is %r, f\'(x0) x1 = %r (relative error %.3g)' % (
+            case['fn'], float(x[0, 0]), got, want, abs(got - want) / abs(want))
+    return None
+
+
 def utp_fails(case):
     e = TABLE[case['fn']]
     x = np.array(case['x'])
@@ -402,6 +454,8 @@ def search(ctx, case, what):
 
 
 def replay_case(ctx, case):
+    if case.get('tail'):
+        return tail_fails(case)
     if case.get('utp'):
         return utp_fails(case)
     return run_case(ctx, case) or oracle_fails(case)
